@@ -106,6 +106,16 @@ def extract(repo):
         if 'findNormalString( "*/" )' not in swc or "skipWS()" not in swc:
             raise ValueError("skipWSandComments: shape not recognised")
 
+    # --- what may stand before `#`: white space and ONE comment (old) or any number of comments (skipWSandComments)
+    head = rn0[:rn0.find("'#'")]
+    if re.search(r"skipWSandComments\(\);\s*c = _file\.get\(\);\s*if\(\s*c != $", head.strip() + " ") or \
+            (re.search(r"skipWSandComments\(\)", head) and 'findNormalString( "*/" )' not in head):
+        lead_gap = True
+    elif 'findNormalString( "*/" )' in head and head.count("skipWS()") >= 2:
+        lead_gap = False
+    else:
+        raise ValueError("readInstanceNumber: what is skipped before '#' not recognised")
+
     # --- instanceID
     m = re.search(r"typedef\s+(\w+)\s+instanceID\s*;", types)
     if not m:
@@ -195,6 +205,8 @@ def extract(repo):
            f"def kwSpaceDelim : Bool := {'true' if kw_space else 'false'}",
            "/-- comments are skipped between `)` and `;`, between the id and `=`, before `ENDSEC` -/",
            f"def tokenComments : Bool := {'true' if token_comments else 'false'}",
+           "/-- before `#`: any number of comments (else white space, at most one comment, white space) -/",
+           f"def leadGap : Bool := {'true' if lead_gap else 'false'}",
            "/-- `getRealInstance` registers the instance in `_instancesLoaded` before `STEPread` -/",
            f"def cacheBeforeRead : Bool := {'true' if early else 'false'}",
            "/-- lazyRefs: a candidate whose entity has no such attribute is skipped instead of indexing `attributes[-1]` -/",
